@@ -45,6 +45,7 @@ ExpRes(e) ==
     [] e.op = "badget"     -> {<<"v", e.v>>}
     [] e.op = "minkey"     -> {LET x == SM!MinKeySpec(Keys_, e.k) IN IF x = 0 THEN <<"ValueError">> ELSE <<"v", x>>}
     [] e.op = "maxkey"     -> {LET x == SM!MaxKeySpec(Keys_, e.k) IN IF x = 0 THEN <<"ValueError">> ELSE <<"v", x>>}
+    [] e.op = "badbyvalue" -> {<<"TypeError">>}
     [] e.op = "badbound"   -> {<<"TypeError">>, <<"ValueError">>}      \* (which of the two is C09's business)
     [] e.op = "keys"       -> {<<"ks", SM!RangeKeys(Keys_, e.lo, e.hi, e.xlo, e.xhi)>>}
     [] e.op = "len"        -> {<<"v", Len(Keys_)>>}
@@ -59,7 +60,7 @@ ExpRes(e) ==
     [] e.op = "iter"       -> {<<"ks", Keys_>>}
     [] OTHER               -> {<<"ok">>}
 IsRead(e) == e.op \in {"get", "getitem", "contains", "badget", "minkey", "maxkey", "badbound", "keys", "len", "iter", "badwrite",
-                        "bool", "haskey", "values", "index"}
+                        "bool", "haskey", "values", "index", "badbyvalue"}
 Stutter == UNCHANGED pvars
 
 NewRegs == Len(reg') - Len(reg)
